@@ -213,6 +213,48 @@ class Oracle(object):
                 return w
         return None
 
+    # ------------------------------------------------------ sentence sampling
+    def _minlen(self):
+        if not hasattr(self, "_ml"):
+            ml = {}
+            changed = True
+            while changed:
+                changed = False
+                for l, r in self.rprods:
+                    if all((x in ml) or (x not in self.nonterminals) for x in r):
+                        v = sum(ml[x] if x in self.nonterminals else 1 for x in r)
+                        if l not in ml or v < ml[l]:
+                            ml[l] = v
+                            changed = True
+            self._ml = ml
+        return self._ml
+
+    def sample_sentence(self, r, maxlen):
+        """A random sentence of length <= maxlen by random leftmost expansion (None if the
+        language is empty or the attempt overran the budget)."""
+        if self.empty_language:
+            return None
+        ml = self._minlen()
+        need = lambda x: ml[x] if x in self.nonterminals else 1
+        if need(self.start) > maxlen:
+            return None
+        out, todo, steps = [], [self.start], 0
+        while todo:
+            steps += 1
+            if steps > 400:
+                return None
+            x = todo.pop()
+            if x not in self.nonterminals:
+                out.append(x)
+                continue
+            budget = maxlen - len(out) - sum(need(y) for y in todo)
+            opts = [rhs for rhs in self.by_lhs.get(x, ()) if sum(need(y) for y in rhs) <= budget]
+            if not opts:
+                return None
+            rhs = max(r.choice(opts), r.choice(opts), r.choice(opts), key=len)   # bias to longer
+            todo.extend(reversed(rhs))
+        return tuple(out)
+
     # --------------------------------------------------------- derivation check
     def check_tree(self, tree, w):
         """tree = ('leaf', sym, index) | ('node', lhs, rhs, [children]).  None if it is a parse
